@@ -6,18 +6,26 @@ _RW = {"middleware/blocklist": ["sync", "sync/atomic", "os"]}
 CHECK = {
     "level": "model_checking",
     "engines": ["space", "sched", "crash"],
-    "technique": "bounded-exhaustive (lists x names) comparison with a label-slice reference matcher; preemption-bounded schedule DFS of concurrent Set/Remove/SetBatch/RemoveBatch over the vsync/vos shims with a set-model + reload oracle; crash-prefix / power-loss / fault enumeration of the real persist file-operation log",
-    "level_text": "",
-    "level_note": "",
-    "rule": "",
-    "assumptions": [],
-    "bounds": {"quick": "", "thorough": ""},
+    "technique": "bounded-exhaustive (list x name x qtype) comparison of the real BlockList/ServeDNS with a label-slice reference matcher; preemption-bounded schedule DFS (controlled scheduler over vsync/vatomic/vos) of concurrent Set/Remove/SetBatch/RemoveBatch with a set-model linearizability + file==memory + restart oracle and an every-scheduling-point crash-consistency monitor; crash-prefix / power-loss / fault-position enumeration of the real persist() file-operation log",
+    "level_text": "Every list of <=3 entries (plain / *.wildcard / whitelist forms over names of depth <=3 on {a,b,notb,B}) is built through the real configuration path and compared on every query name of depth <=4 (incl. root, mixed case, label-boundary near misses) with a reference matcher written from the property text, for Exists() and for the ServeDNS reply inside a real middleware.Chain. Every schedule (<=2/3 preemptions) of 2-3 threads each doing one API mutation runs on the real code with mu, saveMu and every file operation as scheduling points; at quiescence the final list must be explained by an order of the operations, the file must list exactly the in-memory entries and a restart must match identically on the whole query alphabet; at every scheduling point the file on disk must be the last complete list. For sequential histories the file-operation log of the last persistence is expanded into every process-crash prefix and power-loss image, and every file operation is made to fail in turn.",
+    "level_note": "Trusted: the vsync/vatomic/vos shims (sequentially consistent; every vos call is a point and is logged right before it executes), the crashfs power-loss model (unsynced tails cut at write boundaries, namespace operations since the last directory fsync lost as a suffix), a tmpfs scratch directory. New() is reproduced without its `go refreshRemote()` goroutine (struct literal + loadInitial). Set/Remove/SetBatch/RemoveBatch persist synchronously on the caller's goroutine, so the managed threads call the real API.",
+    "rule": "match: all subsets of <=3 (thorough: also <=4 on the depth<=2 pool) entries x all query names; 'nontrivial' = lists that block at least one query name and leave at least one unblocked; 'states' = distinct in-memory list states. persist: all multisets of 2 and 3 single-operation threads over the operation alphabet x initial lists, every schedule within the preemption bound; 'states' = distinct (scenario, final memory, results, persisted version) outcomes, 'nontrivial' = outcomes of scenarios with >=2 distinct outcomes. crash: all sequences of 1-3 (thorough 1-4) operations; every crash image of the last persistence; 'states' = distinct images, 'nontrivial' = images taken strictly inside the sequence with a temp file present; roundtrip: all lists of <=3 entries persisted by one SetBatch and restarted, 'nontrivial' = lists with >=2 members",
+    "assumptions": [
+        "list entries are non-root names (depth 1-3); the root is a query name only",
+        "sequential consistency for the scheduled scenarios",
+        "the whitelist comes from configuration only and is identical across restarts",
+        "persist() writes lines in map-iteration order, so every line order is reachable; the restart oracle uses the actual, the parent-first and the child-first order",
+    ],
+    "bounds": {
+        "quick": "match: 141 entries (47 names, mixed-case label in names of depth<=2) lists<=3 x 341 names, ServeDNS on all names x 5 qtypes for lists<=2, on depth<=1 names for 3-entry lists; persist: 8 ops, pairs x3 initial lists + triples x2 initial lists, preemption bound 2; crash: 9 ops, histories of length<=3, process-crash + power-loss + fault at every op (plain and short write); roundtrip lists<=3 over 40 entries",
+        "thorough": "match: 252 entries (84 names) lists<=3 x 341 names with ServeDNS on every name (rotating qtype), plus lists<=4 over 60 entries; persist: 12 ops, pairs x3 at bound 3, triples x3 at bound 2, triples of the 8 quick ops at bound 3; crash: 13 ops, histories of length<=4; roundtrip lists<=2 over 168 entries and <=4 over 40 entries",
+    },
     "units": {
         "match": {"pkg": "middleware/blocklist", "run": "TestVerifC18Match", "harness": _H,
-                  "budget_s": {"quick": 60, "thorough": 600}},
+                  "budget_s": {"quick": 60, "thorough": 700}},
         "persist": {"pkg": "middleware/blocklist", "run": "TestVerifC18Persist", "harness": _H, "rewrite": _RW,
-                    "gomaxprocs": 1, "budget_s": {"quick": 45, "thorough": 420}},
+                    "gomaxprocs": 1, "budget_s": {"quick": 60, "thorough": 600}},
         "crash": {"pkg": "middleware/blocklist", "run": "TestVerifC18Crash", "harness": _H, "rewrite": _RW,
-                  "budget_s": {"quick": 45, "thorough": 300}},
+                  "budget_s": {"quick": 45, "thorough": 400}},
     },
 }
